@@ -230,6 +230,21 @@ def get : Node → Path → HTerm
     | [] => .felt 0
     | b :: ks => if b then get r ks else get l ks
 
+/-- What the trie sees when the caller of `Trie.Update(key, value *felt.Felt)` overwrites `*value` AFTER the
+call: `insert` stores the caller's pointer as the leaf (`(*trienode.ValueNode)(value)`, no copy), so the leaf under
+`key` changes in place — no flag is touched, no cached hash above it is invalidated. (The key is copied:
+`FeltToPath` builds a new path.) No effect when `key` holds no leaf. -/
+def poke (n : Node) (key : Path) (v : HTerm) : Node :=
+  match n with
+  | .value w => if key.isEmpty then .value v else .value w
+  | .edge p c fl => if p.isPrefixOf key then .edge p (poke c (key.drop p.length) v) fl else .edge p c fl
+  | .bin l r fl =>
+    match key with
+    | [] => .bin l r fl
+    | b :: ks => if b then .bin l (poke r ks v) fl else .bin (poke l ks v) r fl
+  | .nil => .nil
+  | .hash h => .hash h
+
 end Trie2
 
 /-! ## Operation sequences on a trie (what the harness and the theorems quantify over) -/
